@@ -204,7 +204,7 @@ POL17["rf24_mesh:RF24MeshNoMaster._lookup_2_master"] = "ref:" + R + "abs_lookup_
 POL17["structs:RF24NetworkHeader.__init__"] = "inline"
 IDARG = OneOf(Const(None), Int(0, 255))
 ADARG = OneOf(Const(None), Int(0, 65535))
-LOOPS_L2M = {(NM + "._lookup_2_master", 0): LoopSpec(R + "inv_l2m_wait", havoc=["spec.c07:havoc_update"], frame=R + "l2m_fixed")}
+LOOPS_L2M = {(NM + "._lookup_2_master", 0): LoopSpec(R + "inv_l2m_wait", havoc=["spec.c07:havoc_update"], frame=R + "l2m_fixed", variant="spec.c07:var_deadline")}
 
 CONTRACTS = [
     Contract("C17.lookup_address", NM + ".lookup_address", {"self": with_l2m(nm_schema()), "node_id": IDARG},
@@ -385,7 +385,7 @@ CONTRACTS.append(
              {"self": with_w(with_l2m(nm_schema())), "to_node": Int(0, 255), "message_type": Int(0, 255),
               "message": OneOf(Bytes(0, 6000), ByteArray(0, 6000))},
              requires=[R + "req_mesh_send"], ensures=[("to_the_looked_up_address", R + "ens_mesh_send")], raises=(), policy=POL_SEND,
-             loops={(NM + ".send", 0): LoopSpec(R + "inv_send_lookup", havoc=[R + "havoc_send_lookup"], frame=R + "send_fixed")},
+             loops={(NM + ".send", 0): LoopSpec(R + "inv_send_lookup", havoc=[R + "havoc_send_lookup"], frame=R + "send_fixed", variant="spec.c07:var_deadline")},
              props=["C17", "C07"], replayable=False))
 
 
@@ -485,6 +485,7 @@ def havoc_req(self):
     self.g_writes = oracle_int(0, 1 << 40)
     self.g_to = oracle_int(0, 0xFFFF)
     self.g_to2 = oracle_int(0, 0xFFFF)
+    self.g_same = oracle_int(0, 1) == 1
     self.g_type = oracle_int(0, 4)
     self.g_h_to = oracle_int(0, 0xFFFF)
     self.g_h_from = oracle_int(0, 0xFFFF)
@@ -538,7 +539,7 @@ NEWADDR = OneOf(Const(None), Int(0, 0xFFFF))
 CONTRACTS += [
     Contract("C17._make_contact", NM + "._make_contact", {"self": nm_schema(addr=Const(DEFAULT)), "lvl": Int(0, 4)},
              requires=[R + "req_contact"], ensures=[("validated_responders", R + "ens_contact")], raises=(), policy=POL_CONTACT,
-             loops={(NM + "._make_contact", 0): LoopSpec(R + "inv_contact", havoc=[R + "havoc_contact"], frame=R + "contact_fixed")},
+             loops={(NM + "._make_contact", 0): LoopSpec(R + "inv_contact", havoc=[R + "havoc_contact"], frame=R + "contact_fixed", variant="spec.c07:var_deadline")},
              props=["C17", "C07", "C15"], replayable=False),
     Contract("C17._request_address", NM + "._request_address",
              {"self": with_l2m(nm_schema(addr=Const(DEFAULT), node_id=Int(1, 255))), "level": Int(0, 4)},
@@ -546,7 +547,7 @@ CONTRACTS += [
              loops={(NM + "._request_address", 1): LoopSpec(R + "inv_req_contacts", havoc=[R + "havoc_req_outer"], frame=R + "req_fixed_outer",
                                                             locals={"new_addr": NEWADDR}),
                     (NM + "._request_address", 2): LoopSpec(R + "inv_req_wait", havoc=[R + "havoc_req"], frame=R + "req_fixed",
-                                                            locals={"new_addr": NEWADDR})},
+                                                            locals={"new_addr": NEWADDR}, variant="spec.c07:var_deadline")},
              props=["C17", "C07", "C15"], replayable=False),
 ]
 
